@@ -1037,12 +1037,16 @@ def _sbml_to_model(
         # calculate hashmaps to lookup objects in O(1)
         sid_map = {}
         metaid_map = {}
-        for obj_list in [
+        obj_lists = [
             model.getListOfCompartments(),
             model.getListOfSpecies(),
             model.getListOfReactions(),
             model_groups.getListOfGroups(),
-        ]:
+        ]
+        if model_fbc:
+            # genes can be members of groups, too
+            obj_lists.append(model_fbc.getListOfGeneProducts())
+        for obj_list in obj_lists:
             sbase: "libsbml.SBase"
             for sbase in obj_list:
                 if sbase.isSetId():
